@@ -60,10 +60,14 @@ func (v *sample) sample(now time.Time, nbRequests uint64) bool {
 		return false
 	}
 
-	diff := int64(nbRequests - v.count)
+	// Compare as unsigned: a signed difference overflows when the counter is above 2^63.
+	var diff uint64
+	if nbRequests > v.count {
+		diff = nbRequests - v.count
+	}
 	v.count = nbRequests
 	v.lastSample = now
-	if diff <= 0 {
+	if diff == 0 {
 		v.rps = 0
 		return true
 	}
@@ -143,10 +147,11 @@ func (v *kxps) sampleAverage(now time.Time) float64 {
 		return 0
 	}
 
-	diff := int64(v.source.Count() - v.average)
-	if diff <= 0 {
+	// Compare as unsigned: a signed difference overflows when the counter is above 2^63.
+	if v.source.Count() <= v.average {
 		return 0
 	}
+	diff := v.source.Count() - v.average
 
 	duration := int64(now.Sub(v.create) / time.Millisecond)
 	if duration <= 0 {
